@@ -450,3 +450,43 @@ canary('c03-constructor-swap', 'C03', 'crates/erltf/src/types.rs', """        Ex
             creation,
             local_ext_bytes: None,
         }""", 'param-field')
+
+# ---- C13 ----
+canary('c13-borrowed-cap-removed', 'C13', DEC, """    let (input, len) = be_u32(input)?;
+    if len as usize > MAX_LIST_SIZE {
+        return Err(nom::Err::Failure(NomError::new(input, ErrorKind::TooLarge)));
+    }
+    let mut remaining = input;
+    let mut elements = Vec::with_capacity((len as usize).min(input.len()));
+
+    for i in 0..len {""", """    let (input, len) = be_u32(input)?;
+    let mut remaining = input;
+    let mut elements = Vec::with_capacity((len as usize).min(input.len()));
+
+    for i in 0..len {""", 'TWIN:')
+canary('c13-borrowed-bits', 'C13', DEC, """    if bits == 0 || bits > 8 {
+        return Err(nom::Err::Failure(NomError::new(input, ErrorKind::Verify)));
+    }
+    if len == 0 && bits != 8 {
+        return Err(nom::Err::Failure(NomError::new(input, ErrorKind::Verify)));
+    }
+    let (input, bytes) = take(len as usize)(input)?;
+    Ok((
+        input,
+        BorrowedTerm::BitBinary {""", """    if bits == 0 || bits > 7 {
+        return Err(nom::Err::Failure(NomError::new(input, ErrorKind::Verify)));
+    }
+    if len == 0 && bits != 8 {
+        return Err(nom::Err::Failure(NomError::new(input, ErrorKind::Verify)));
+    }
+    let (input, bytes) = take(len as usize)(input)?;
+    Ok((
+        input,
+        BorrowedTerm::BitBinary {""", 'TWIN:')
+canary('c13-borrowed-width', 'C13', DEC, """fn parse_binary_borrowed(input: &[u8]) -> NomResult<'_, BorrowedTerm<'_>> {
+    let (input, len) = be_u32(input)?;""", """fn parse_binary_borrowed(input: &[u8]) -> NomResult<'_, BorrowedTerm<'_>> {
+    let (input, len) = be_u16(input)?;""", 'TWIN:')
+canary('c13-borrowed-drops-port', 'C13', DEC, "        NEW_PORT_EXT => parse_new_port_borrowed(input, original_len, ctx),\n", "", 'missing:89')
+canary('c13-to-owned-string-binary', 'C13', 'crates/erltf/src/borrowed.rs', "BorrowedTerm::String(s) => OwnedTerm::String(s.to_string()),", "BorrowedTerm::String(s) => OwnedTerm::Binary(s.as_bytes().to_vec()),", 'TABLE:to_owned')
+canary('c13-offset-shape', 'C13', DEC, "    ctx.byte_offset = original_len - input.len();\n    let (input, tag) = be_u8(input)?;", "    ctx.byte_offset = original_len + 1 - input.len();\n    let (input, tag) = be_u8(input)?;", 'byte_offset')
+canary('c13-borrowed-variant', 'C13', DEC, """    Ok((input, BorrowedTerm::Binary(Cow::Borrowed(data))))""", """    Ok((input, BorrowedTerm::BitBinary { bytes: Cow::Borrowed(data), bits: 8 }))""", 'TWIN:')
